@@ -22,6 +22,7 @@ import (
 	"github.com/olric-data/olric/internal/discovery"
 	"github.com/olric-data/olric/internal/protocol"
 	"github.com/olric-data/olric/internal/stats"
+	"github.com/olric-data/olric/internal/verifhook"
 	"golang.org/x/sync/errgroup"
 )
 
@@ -105,12 +106,14 @@ func (dm *DMap) deleteOnCluster(hkey uint64, key string, f *fragment) error {
 	if err != nil {
 		return err
 	}
+	verifhook.At("del.previous", dm.name, key)
 
 	if dm.s.config.ReplicaCount != 0 {
 		err := dm.deleteBackupOnCluster(hkey, key)
 		if err != nil {
 			return err
 		}
+		verifhook.At("del.replicas", dm.name, key)
 	}
 
 	err = f.storage.Delete(hkey)
@@ -120,6 +123,7 @@ func (dm *DMap) deleteOnCluster(hkey uint64, key string, f *fragment) error {
 
 	// DeleteHits is the number of deletion reqs resulting in an item being removed.
 	DeleteHits.Increase(1)
+	verifhook.At("del.local", dm.name, key)
 
 	return nil
 }
@@ -134,6 +138,7 @@ func (dm *DMap) deleteKey(key string) error {
 
 	f.Lock()
 	defer f.Unlock()
+	verifhook.At("del.locked", dm.name, key)
 
 	// Check the HKey before trying to delete it.
 	if !f.storage.Check(hkey) {
